@@ -43,6 +43,7 @@ INVARIANT DistSound
 INVARIANT IntersectsSound
 INVARIANT ContainsSound
 INVARIANT SampleSound
+INVARIANT HistoryFree
 INVARIANT Emit
 CHECK_DEADLOCK FALSE
 """
@@ -105,8 +106,13 @@ def _coords(v):
     return (float(v[0]), float(v[1]), float(v[2]))
 
 
-def observe_region(R, cp_idx, sd):
-    """Everything the check looks at on one real region."""
+def _pvec(q, dz):
+    p = _PROBES[q]
+    return _vec((p[0], p[1], p[2] + dz))
+
+
+def observe_region(R, cp_idx, sd, dz=0):
+    """Everything the check looks at on one real region (probes translated by dz lattice units)."""
     from scenic.core.regions import EmptyRegion, PolygonalRegion
 
     o = {"rtype": type(R).__name__, "empty": isinstance(R, EmptyRegion)}
@@ -119,7 +125,7 @@ def observe_region(R, cp_idx, sd):
     cp = {}
     for q in cp_idx:
         try:
-            cp[q] = bool(R.containsPoint(_vec(_PROBES[q])))
+            cp[q] = bool(R.containsPoint(_pvec(q, dz)))
         except Exception as e:
             o["cp_exc"] = _exc(e)
             break
@@ -134,7 +140,7 @@ def observe_region(R, cp_idx, sd):
     ds = []
     for q in _DISTIDX:
         try:
-            ds.append(float(R.distanceTo(_vec(_PROBES[q]))))
+            ds.append(float(R.distanceTo(_pvec(q, dz))))
         except Exception as e:
             ds = _exc(e)
             break
@@ -167,12 +173,12 @@ def observe_region(R, cp_idx, sd):
     return o
 
 
-def plane_ok_idx(descs):
+def plane_ok_idx(descs, dz=0):
     """Probes lying in the plane of every planar operand (the harness only asks containsPoint
     there; the mask that decides what is compared comes from TLC)."""
     idx = []
     for q, p in enumerate(_PROBES):
-        if all((not G.is_planar(d)) or p[2] == G.z_of(d) for d in descs):
+        if all((not G.is_planar(d)) or p[2] + dz == G.z_of(d) for d in descs):
             idx.append(q)
     return idx
 
@@ -180,7 +186,7 @@ def plane_ok_idx(descs):
 def _init_worker():
     global _CAT, _PROBES, _DISTIDX
     if _CAT is None:
-        _CAT = G.catalogue()
+        _CAT = full_catalogue()[0]
         _PROBES = G.probe_grid()
         _DISTIDX = dist_idx(len(_PROBES))
 
@@ -203,8 +209,38 @@ def run_prim(r):
         signal.alarm(0)
 
 
+def _do_pair(out, A, B, da, db, key, dz=0):
+    """The three operations + intersects + containsRegion of the real objects A, B."""
+    for name, fn in (("intersects", lambda: bool(A.intersects(B))), ("containsRegion", lambda: bool(A.containsRegion(B)))):
+        try:
+            out[name] = fn()
+        except RecursionError as e:
+            out[name] = {"exc": "RecursionError", "cls": "crash", "msg": str(e)[:100]}
+        except _Timeout:
+            raise
+        except Exception as e:
+            out[name] = _exc(e)
+    cpi = plane_ok_idx([da, db], dz)
+    for k, (op, meth) in enumerate(OPS):
+        try:
+            R = getattr(A, meth)(B)
+        except RecursionError as e:
+            out["ops"][op] = {"status": "crash", "exc": "RecursionError", "cls": "crash", "msg": str(e)[:100]}
+            continue
+        except _Timeout:
+            raise
+        except Exception as e:
+            x = _exc(e)
+            x["status"] = x["cls"]
+            out["ops"][op] = x
+            continue
+        o = observe_region(R, cpi, seed() * 1000003 + key * 4 + k, dz)
+        o["status"] = "ok"
+        out["ops"][op] = o
+
+
 def run_pair(ab):
-    """One ordered pair: the three operations + intersects + containsRegion on the real code."""
+    """One ordered pair of FRESH objects on the real code."""
     a, b = ab
     _init_worker()
     signal.signal(signal.SIGALRM, _alarm)
@@ -212,38 +248,98 @@ def run_pair(ab):
     da, db = _CAT[a], _CAT[b]
     try:
         signal.alarm(180)
-        A, B = G.build(da), G.build(db)
-        for name, fn in (("intersects", lambda: bool(A.intersects(B))), ("containsRegion", lambda: bool(A.containsRegion(B)))):
-            try:
-                out[name] = fn()
-            except RecursionError as e:
-                out[name] = {"exc": "RecursionError", "cls": "crash", "msg": str(e)[:100]}
-            except _Timeout:
-                raise
-            except Exception as e:
-                out[name] = _exc(e)
-        cpi = plane_ok_idx([da, db])
-        for k, (op, meth) in enumerate(OPS):
-            try:
-                R = getattr(A, meth)(B)
-            except RecursionError as e:
-                out["ops"][op] = {"status": "crash", "exc": "RecursionError", "cls": "crash", "msg": str(e)[:100]}
-                continue
-            except _Timeout:
-                raise
-            except Exception as e:
-                x = _exc(e)
-                x["status"] = x["cls"]
-                out["ops"][op] = x
-                continue
-            o = observe_region(R, cpi, seed() * 1000003 + (a * 64 + b) * 4 + k)
-            o["status"] = "ok"
-            out["ops"][op] = o
+        _do_pair(out, G.build(da), G.build(db), da, db, a * 64 + b)
     except _Timeout:
         out["timeout"] = True
     finally:
         signal.alarm(0)
     return out
+
+
+# ------------------------------------------------------------------ histories (Reuse layer of RegionAlg.tla)
+# (reused region, side of the reused object, [(other region, dz in real units), ...]): ONE real object
+# of the reused region takes part in all steps, the other operand is built afresh for every step,
+# translated by dz along z.  One history at least per cache found in regions.py:
+#   PolygonalFootprintRegion._bounded_cache (approxBoundFootprint: prism cached with its z range),
+#   PolygonalRegion.footprint (cached footprint object and, through it, the same prism cache),
+#   MeshVolumeRegion.intersect (cached_method), mesh / _fclData / _interiorPoint / _bodyCount /
+#   num_samples / circumcircle / boundingPolygon (cached properties), Region.containsRegion
+#   (cached_method), PolygonalRegion._samplingData + prepared shapely geometry, the polygons of
+#   discs and sectors, PathRegion.AABB / size, PointSetRegion kd-tree and size.
+HISTORIES = [
+    ("F1", "B", [("V1", 0), ("V1", 300), ("V1", -300), ("V1", 0)]),
+    ("F1", "A", [("V2", 300), ("V2", 0), ("V2", 450)]),
+    ("F2", "B", [("V3", 0), ("V3", 300), ("V3", 150)]),
+    ("F1", "A", [("T1", 0), ("T1", 250), ("T1", -250)]),
+    ("F1", "B", [("V1", 0), ("V1", -400), ("V2", 260)]),
+    ("FP1", "B", [("V1", 0), ("V1", 300)]),
+    ("V1", "A", [("V2", 0), ("V2", 8), ("V2", 0), ("V3", 0)]),
+    ("V1", "B", [("P2", 0), ("P2", 8), ("P1", 0)]),
+    ("P2", "A", [("P3", 0), ("P3", 2), ("P3", 0), ("R3", 0)]),
+    ("P2", "B", [("R3", 0), ("V1", 0), ("V1", 8)]),
+    ("C2", "A", [("R2", 0), ("R2", 2), ("P3", 0)]),
+    ("S4", "A", [("P2", 0), ("P3", 0), ("P2", 2)]),
+    ("Q1", "A", [("V1", 0), ("V1", 8), ("C1", 0)]),
+    ("L1", "A", [("P1", 0), ("V1", 0), ("V1", 8)]),
+    ("T1", "B", [("V1", 0), ("V1", 8), ("V2", 0)]),
+    ("M3", "A", [("R3", 0), ("R3", 2), ("R3", 0)]),
+]
+
+
+def full_catalogue():
+    """The catalogue of RegionAlg: the primitive catalogue, then the regions only used in histories
+    (the polygon-owned footprint FP1 and the translated operands).  Returns (catalogue, number of
+    primitives, histories as lists of (a, b, dz lattice, reused side))."""
+    cat = G.catalogue()
+    nprim = len(cat)
+    ix = {d["name"]: i for i, d in enumerate(cat)}
+    p1 = cat[ix["P1"]]
+    fp1 = G.fp("FP1", *[[v / S for v in r] for r in p1["s"]])
+    fp1["via_polygon"] = p1["n"][0] / S
+    cat.append(fp1)
+    ix["FP1"] = len(cat) - 1
+    hists = []
+    for reused, side, steps in HISTORIES:
+        hs = []
+        for other, dzr in steps:
+            dz = int(round(dzr * S))
+            d = G.shift_z(cat[ix[other]], dz)
+            if d["name"] not in ix:
+                cat.append(d)
+                ix[d["name"]] = len(cat) - 1
+            o = ix[d["name"]]
+            # probes follow the other operand when it is translated
+            hs.append((ix[reused], o, dz, side) if side == "A" else (o, ix[reused], dz, side))
+        hists.append(hs)
+    return cat, nprim, hists
+
+
+def run_history(h):
+    """One history on the real code: the reused operand is ONE object for all steps."""
+    hid, steps = h
+    _init_worker()
+    signal.signal(signal.SIGALRM, _alarm)
+    outs = []
+    reused = None
+    try:
+        signal.alarm(300)
+        for k, (a, b, dz, side) in enumerate(steps):
+            da, db = _CAT[a], _CAT[b]
+            out = {"a": a, "b": b, "ops": {}}
+            outs.append(out)
+            if reused is None:
+                reused = G.build(da if side == "A" else db)
+            A = reused if side == "A" else G.build(da)
+            B = reused if side == "B" else G.build(db)
+            _do_pair(out, A, B, da, db, 5000 + hid * 16 + k, dz)
+    except _Timeout:
+        if outs:
+            outs[-1]["timeout"] = True
+        while len(outs) < len(steps):
+            outs.append({"timeout": True, "ops": {}})
+    finally:
+        signal.alarm(0)
+    return outs
 
 
 # ------------------------------------------------------------------ comparing with the spec
@@ -516,21 +612,30 @@ def main(tier):
         "exceptions NotImplementedError / UndefinedSamplingException / explicitly raised TypeError, ValueError, RuntimeError are accepted refusals",
         "the descriptor -> (TLA+ record, real region) printer pair gen_regions.to_tla / build is trusted glue",
     ]
-    cat = G.catalogue()
+    cat, nprim, hists = full_catalogue()
     probes = G.probe_grid()
     distidx = dist_idx(len(probes))
-    pairs = choose_pairs(tier, len(cat))
+    pairs = choose_pairs(tier, nprim)
     only = os.environ.get("VERIF_C16_ONLY")  # development aid (mutation scripts): restrict to these region names
     if only:
         names = set(only.split(","))
-        pairs = [(a, b) for a in range(len(cat)) for b in range(len(cat)) if cat[a]["name"] in names and cat[b]["name"] in names]
+        pairs = [(a, b) for a in range(nprim) for b in range(nprim) if cat[a]["name"] in names and cat[b]["name"] in names]
+        hists = []
+    # every entry: (a, b, dz, history id or 0, step, reused side)
+    entries = [(a, b, 0, 0, 0, "") for a, b in pairs]
+    for hid, hs in enumerate(hists):
+        for k, (a, b, dz, side) in enumerate(hs):
+            entries.append((a, b, dz, hid + 1, k + 1, side))
+
+    def tl_entry(e, si=(), su=(), sd=()):
+        return {"a": e[0] + 1, "b": e[1] + 1, "dz": e[2], "hid": e[3], "step": e[4], "si": list(si), "su": list(su), "sd": list(sd)}
 
     # the laws and the expectations do not depend on the real code: TLC checks them while the real
     # regions are being exercised; the samples are classified by a second, small TLC run
     lpath = os.path.join(scratch(), "c16laws.json")
-    base = {"cat": [G.to_tla(c) for c in cat], "probes": probes, "distidx": [q + 1 for q in distidx]}
+    base = {"cat": [G.to_tla(c) for c in cat], "nprim": nprim, "probes": probes, "distidx": [q + 1 for q in distidx]}
     with open(lpath, "w") as f:
-        json.dump(dict(base, run="laws", pairs=[{"a": a + 1, "b": b + 1, "si": [], "su": [], "sd": []} for a, b in pairs]), f)
+        json.dump(dict(base, run="laws", pairs=[tl_entry(e) for e in entries]), f)
     box = {}
 
     def _laws():
@@ -549,8 +654,10 @@ def main(tier):
 
         prim_obs, pair_obs = pickle.load(open(cache, "rb"))
     else:
-        prim_obs = pmap(run_prim, list(range(len(cat))))
+        prim_obs = pmap(run_prim, list(range(nprim)))
         pair_obs = pmap(run_pair, pairs, chunk=4)
+        for outs in pmap(run_history, list(enumerate(hists)), chunk=1):
+            pair_obs.extend(outs)
         if cache:
             import pickle
 
@@ -559,12 +666,12 @@ def main(tier):
     ck.cov["wall_real_code_s"] = round(time.time() - ck.t0, 1)
     # ---- TLC: laws + expectations + classification of the samples
     tl_pairs = []
-    for (a, b), po in zip(pairs, pair_obs):
-        ent = {"a": a + 1, "b": b + 1}
+    for e, po in zip(entries, pair_obs):
+        smp = {}
         for op, key in (("inter", "si"), ("union", "su"), ("diff", "sd")):
             o = po["ops"].get(op, {})
-            ent[key] = o.get("samples", []) if o.get("status") == "ok" else []
-        tl_pairs.append(ent)
+            smp[key] = o.get("samples", []) if o.get("status") == "ok" else []
+        tl_pairs.append(tl_entry(e, **smp))
     data = dict(base, run="samples", pairs=tl_pairs)
     path = os.path.join(scratch(), "c16cases.json")
     with open(path, "w") as f:
@@ -594,7 +701,7 @@ def main(tier):
             case_exp[(o["p"] - 1, o["op"])] = o
     for key, o in case_exp.items():
         o["smp"] = smp_exp.get(key, [])
-    if len(prim_exp) != len(cat) or len(pair_exp) != len(pairs) or len(case_exp) != 3 * len(pairs):
+    if len(prim_exp) != nprim or len(pair_exp) != len(entries) or len(case_exp) != 3 * len(entries):
         raise MachineryError("TLC did not print every case")
 
     nsamples = nmixed = touching = 0
@@ -610,34 +717,44 @@ def main(tier):
                                    {"property": "C16", "region": d})
         ck.validated(1)
     # ---- pairs
-    for pi, ((a, b), po) in enumerate(zip(pairs, pair_obs)):
+    nhist_steps = 0
+    for pi, ((a, b, dz, hid, step, side), po) in enumerate(zip(entries, pair_obs)):
         da, db = cat[a], cat[b]
         trivial = da["k"] in ("all", "empty") and db["k"] in ("all", "empty")
         base = {"property": "C16", "A": da, "B": db}
+        hnote = ""
+        pprobes = probes
+        if hid:
+            nhist_steps += 1
+            reused = da if side == "A" else db
+            hnote = f" [history {hid} step {step}: the {kname(reused)} object is reused from the previous steps]"
+            base["history"] = {"id": hid, "step": step, "reused": kname(reused),
+                               "steps": [f"{kname(cat[x])} , {kname(cat[y])}" for x, y, _d, _s in hists[hid - 1][:step]]}
+            pprobes = [[p[0], p[1], p[2] + dz] for p in probes]
         if po.get("timeout"):
             ck.violation(f"{kname(da)},{kname(db)}: timeout", base)
             continue
         pe = pair_exp[pi]
         ix = "yes" if pe["ixgeom"] in ("touch", "unknown") and pe["sh"] else pe["ixgeom"]
         for name, want in (("intersects", ix), ("containsRegion", pe["cr"])):
-            ck.case((name, kname(da), kname(db)), not trivial)
+            ck.case((name, kname(da), kname(db), hid, step), not trivial)
             v = po.get(name)
             if isinstance(v, dict):
                 if v["cls"] == "crash":
-                    ck.violation(f"{kname(da)}.{name}({kname(db)}) crashed with {v['exc']}: {v['msg']}",
+                    ck.violation(f"{kname(da)}.{name}({kname(db)}){hnote} crashed with {v['exc']}: {v['msg']}",
                                  dict(base, what=name + "-crash", observed=v), known_key=known_key_for(pe["trig"], [da, db], name + "-crash", v, {}))
                 else:
                     refused[name] = refused.get(name, 0) + 1
                 continue
             if want in ("yes", "no") and v != (want == "yes"):
-                ck.violation(f"{kname(da)}.{name}({kname(db)}) = {v}, the sets say {want}",
+                ck.violation(f"{kname(da)}.{name}({kname(db)}){hnote} = {v}, the sets say {want}",
                              dict(base, what=name, observed=v, expected=want), known_key=known_key_for(pe["trig"], [da, db], name, {}, {}))
             else:
                 ck.validated(1)
         for op, meth in OPS:
-            ck.case((op, kname(da), kname(db)), not trivial)
+            ck.case((op, kname(da), kname(db), hid, step), not trivial)
             o = po["ops"].get(op)
-            label = f"{kname(da)}.{meth}({kname(db)})"
+            label = f"{kname(da)}.{meth}({kname(db)}){hnote}"
             rb = dict(base, op=meth)
             if o["status"] == "crash":
                 ck.violation(f"{label} crashed with {o['exc']}: {o['msg']}", dict(rb, what="crash", observed=o),
@@ -651,13 +768,15 @@ def main(tier):
                 # polyline, a point set) the library builds is a don't-care
                 touching += 1
                 continue
-            n, ns, nm = compare_region(ck, label, [da, db], op, case_exp[(pi, op)], o, probes, distidx, rb)
+            n, ns, nm = compare_region(ck, label, [da, db], op, case_exp[(pi, op)], o, pprobes, distidx, rb)
             nsamples += ns
             nmixed += nm
             ck.validated(1)
             ck.sample({"case": label, "result_type": o["rtype"], "expected_height": case_exp[(pi, op)]["h"],
                        "samples_classified": ns, "first_sample": (o["raw"] or [None])[0]}, limit=6)
     ck.cov["pairs"] = len(pairs)
+    ck.cov["histories"] = len(hists)
+    ck.cov["history_steps"] = nhist_steps
     ck.cov["probes"] = len(probes)
     ck.cov["samples_classified_by_tlc"] = nsamples
     ck.cov["samples_mixed_not_judged"] = nmixed
